@@ -1606,6 +1606,26 @@ async fn run_case(seed: u64, idx: u64, focus: &str, thorough: bool, fixes: &str)
     let mut r = Runner::new(&mut rng, npeers, retries, capacity).await;
     let nmoves = if thorough { rng.range(30, 90) } else { rng.range(15, 45) };
     let mut moves = vec![];
+    // scripted opening for the nonce property: several requests under the first keys, a re-key
+    // started by the peer (it challenges an in-flight request), a message of the peer still under
+    // the first keys (the session falls back to them), then further requests
+    if focus == "c19" && rng.chance(1, 3) {
+        let p = rng.below(npeers as u64) as usize;
+        r.app_request(&mut rng, p, true, 0).await;
+        let q0 = r.w.reqs.len() - 1;
+        r.net_whoareyou(&mut rng, FORCE + q0).await;
+        r.net_answer(&mut rng, FORCE + q0, 6).await;
+        for _ in 0..rng.range(1, 3) {
+            r.app_request(&mut rng, p, true, 0).await;
+        }
+        let q1 = r.w.reqs.len() - 1;
+        r.net_whoareyou(&mut rng, FORCE + q1).await;
+        r.net_request(&mut rng, p, true).await;
+        for _ in 0..rng.range(1, 3) {
+            r.app_request(&mut rng, p, true, 2).await;
+        }
+        moves.push("scripted: requests, re-key by the peer, message under the old keys, requests".into());
+    }
     // scripted opening: dial a peer whose record is unknown; the peer challenges, we answer with a
     // handshake and ask for its record; the peer answers that request with its own or another record
     let p_script = match focus { "c01" => 3, "c12" => 3, _ => 8 };
